@@ -499,6 +499,15 @@ def check_objects(sh, ns, res):
             res.add_violation(ID, run.viol('mutable', dict(inp, attr='extra'), 'AttributeError', 'assignment accepted'))
         except AttributeError:
             pass
+        # deletion is mutation too (on a clone, so that a successful deletion cannot disturb the rest of the run)
+        for path_, attr in (('', '_matcher'), ('', '_hash'), ('_matcher', '_include'), ('_matcher', '_exclude')):
+            victim = copy.deepcopy(a)
+            obj = getattr(victim, path_) if path_ else victim
+            try:
+                delattr(obj, attr)
+                res.add_violation(ID, run.viol('mutable', dict(inp, attr='del ' + attr), 'AttributeError', 'deletion accepted'))
+            except AttributeError:
+                pass
         b0 = behaviour(a)
         for _ in range(200):
             if behaviour(a) != b0:
